@@ -1252,6 +1252,18 @@ public:
       // represented as integer
       data = 0;
     }
+    else if_constexpr_named(
+      cond_other_sbx,
+      (detail::rlbox_is_tainted_v<T_Rhs> ||
+       detail::rlbox_is_tainted_volatile_v<T_Rhs> ||
+       detail::rlbox_is_sandbox_callback_v<T_Rhs>)&&!std::
+        is_same_v<detail::rlbox_get_wrapper_sandbox_t<T_Rhs>, T_Sbx>)
+    {
+      rlbox_detail_static_fail_because(
+        cond_other_sbx,
+        "Assignment of a wrapper that belongs to a different sandbox type. "
+        "Data of another sandbox has to be verified and copied explicitly.");
+    }
     else if_constexpr_named(cond2, detail::rlbox_is_tainted_v<T_Rhs>)
     {
       using namespace detail;
